@@ -441,6 +441,8 @@ func (t *tree) parseSwitch(token item, end itemType) ast.Node {
 		case end:
 			t.expect(itemRightDelim, ctx)
 			return &ast.SwitchNode{token.pos, switchValue, cases}
+		case itemEOF, itemError:
+			t.unexpected(tok, ctx)
 		}
 	}
 }
